@@ -852,6 +852,8 @@ def blank_variants(ctx, r, text, value, ws_chars):
                 ctx.counts["generator_discarded"] += 1
                 continue
             ctx.reject("parse_units", m, BLANK_U)
+            for entry in ("Units", "UnitValue(number, text)", "UnitArray(values, text)", "units setter"):
+                ctx.reject(entry, m, BLANK_U)
             q = value + " " + m
             if classify_quantity(q) == "invalid":
                 ctx.reject("parse_unitvalue", q, BLANK_Q)
@@ -877,6 +879,8 @@ def w_blanks(ctx, case):
                 for ta, tb in ((a, b), (a + "2", b), (a, b + "-1")):
                     m = ta + " " + tb
                     ctx.reject("parse_units", m, BLANK_U)
+                    for entry in ("Units", "UnitValue(number, text)", "UnitArray(values, text)", "units setter"):
+                        ctx.reject(entry, m, BLANK_U)
                     ctx.reject("parse_unitvalue", "1 " + m, BLANK_Q)
                     ctx.reject("UnitValue", "1 " + m, BLANK_Q)
             ctx.sample(BLANK_Q, {"must_raise": "1 " + a + " s-1"})
